@@ -28,7 +28,7 @@ def run_impl(progs, texts=None, extra_env=None, workers=vlib.NCPU):
         for i, p in enumerate(progs):
             path = os.path.join(d, f"prog_{i}.py")
             with open(path, "w", encoding="utf-8") as f:
-                f.write(texts[i] if texts else surface.to_python(p))
+                f.write(texts[i] if texts else p.get('text') or surface.to_python(p))
             paths.append(path)
 
         def one(path):
